@@ -12,7 +12,7 @@
    PreviousPriv with the current name, and "" means "no previous"); witness in
    NetworkLemmas.Example.acquire_reaches_target_refuted. *)
 From Coq Require Import Permutation.
-From Scrapli Require Import Bytes BytesLemmas Regex PlatformTypes Generated Channel Network NetworkAbs NetworkLemmas NetworkTwins.
+From Scrapli Require Import Bytes BytesLemmas Regex PlatformTypes Generated Channel Network NetworkAbs NetworkLemmas NetworkTwins NetworkHistory NetworkHistoryLemmas.
 
 (* the tree path exists, starts at a, ends at b, has no repeated level, moves along tree edges *)
 Theorem C04_tree_path : forall ls a b,
@@ -109,6 +109,85 @@ Theorem C04_acquire_many_twins : forall net prompt_of,
                   cache_ok net prompt_of d' c'.
 Proof. exact acquire_many_twins. Qed.
 
+
+(* ---- histories — "Commands are always executed at the default desired level and configuration
+   lines at the configuration (or explicitly requested) level, whatever level earlier operations
+   left the device in."  Proofs in theories/NetworkHistoryLemmas.v over theories/NetworkHistory.v
+   ([run_aops]: SendCommand(s) with its cached-level shortcut, SendConfigs, AcquirePriv against
+   the abstract device).  For EVERY history of operations whose own lines do not themselves change
+   the device's mode ([op_inert]), from any start mode with an accurate or not-yet-set cache
+   ([cache_inv]): every acquire succeeds, the device's log gains exactly, per operation, the
+   commands of the tree path to the operation's level followed by the operation's non-empty lines
+   EACH LOGGED AT THAT LEVEL, and the invariant is re-established. *)
+Theorem C04_history : forall net prompt_of,
+  tree_wf (n_levels net) = true -> ~ In [] (names (n_levels net)) ->
+  orders_ok net -> prompts_identify_upto_twins net prompt_of -> unknown_not_twin net prompt_of ->
+  cmds_ok (n_levels net) ->
+  In (n_default net) (names (n_levels net)) ->
+  forall ops d cached,
+    In (d_mode d) (names (n_levels net)) ->
+    (forall o, In o ops -> In (op_target net o) (names (n_levels net))) ->
+    Forall (op_inert net) ops ->
+    cache_inv net prompt_of d cached ->
+    exists d' c',
+      run_aops net prompt_of d cached ops = Some (d', c') /\
+      d_log d' = d_log d ++ expected_log net (d_mode d) ops /\
+      d_mode d' = last (map (op_target net) ops) (d_mode d) /\
+      cache_inv net prompt_of d' c'.
+Proof. exact history_levels. Qed.
+
+(* the two clauses read off the log: wherever a SendCommand(s) sits in a history its lines are
+   logged at the default desired level ... *)
+Theorem C04_commands_at_default : forall net prompt_of,
+  tree_wf (n_levels net) = true -> ~ In [] (names (n_levels net)) ->
+  orders_ok net -> prompts_identify_upto_twins net prompt_of -> unknown_not_twin net prompt_of ->
+  cmds_ok (n_levels net) ->
+  In (n_default net) (names (n_levels net)) ->
+  forall pre lines post d cached,
+    In (d_mode d) (names (n_levels net)) ->
+    (forall o', In o' (pre ++ OCmd lines :: post) -> In (op_target net o') (names (n_levels net))) ->
+    Forall (op_inert net) (pre ++ OCmd lines :: post) ->
+    cache_inv net prompt_of d cached ->
+    exists d' c' before nav after,
+      run_aops net prompt_of d cached (pre ++ OCmd lines :: post) = Some (d', c') /\
+      tree_path (n_levels net) (last (map (op_target net) pre) (d_mode d)) (n_default net) = Some nav /\
+      d_log d' = before ++ path_cmds (n_levels net) nav
+                 ++ map (fun l => (n_default net, l)) (nonempty_lines lines) ++ after.
+Proof. exact commands_at_default. Qed.
+
+(* ... and the lines of a SendConfigs at the configuration (or explicitly requested) level *)
+Theorem C04_configs_at_config_level : forall net prompt_of,
+  tree_wf (n_levels net) = true -> ~ In [] (names (n_levels net)) ->
+  orders_ok net -> prompts_identify_upto_twins net prompt_of -> unknown_not_twin net prompt_of ->
+  cmds_ok (n_levels net) ->
+  In (n_default net) (names (n_levels net)) ->
+  forall pre priv lines post d cached,
+    In (d_mode d) (names (n_levels net)) ->
+    (forall o', In o' (pre ++ OCfg priv lines :: post) -> In (op_target net o') (names (n_levels net))) ->
+    Forall (op_inert net) (pre ++ OCfg priv lines :: post) ->
+    cache_inv net prompt_of d cached ->
+    exists d' c' before nav after,
+      run_aops net prompt_of d cached (pre ++ OCfg priv lines :: post) = Some (d', c') /\
+      tree_path (n_levels net) (last (map (op_target net) pre) (d_mode d)) (cfg_target priv) = Some nav /\
+      d_log d' = before ++ path_cmds (n_levels net) nav
+                 ++ map (fun l => (cfg_target priv, l)) (nonempty_lines lines) ++ after.
+Proof. exact configs_at_config_level. Qed.
+
+(* [op_inert] cannot be dropped: a SendCommand whose line is the default level's own de-escalate
+   command moves the device behind the driver's back; SendCommand trusts the cached level, so the
+   next command runs at the PARENT level.  This is the library's behaviour (known finding F25),
+   here as a theorem about every tree whose default level has a parent. *)
+Theorem C04_inert_needed : forall net prompt_of dl x d,
+  tree_wf (n_levels net) = true -> ~ In [] (names (n_levels net)) -> cmds_ok (n_levels net) ->
+  lookup_level (n_levels net) (n_default net) = Some dl -> lv_previous dl <> [] ->
+  x <> [] -> d_mode d = n_default net ->
+  exists d',
+    run_aops net prompt_of d (n_default net) [OCmd [lv_deescalate dl]; OCmd [x]] = Some (d', n_default net) /\
+    d_log d' = d_log d ++ [(n_default net, lv_deescalate dl); (lv_previous dl, x)] /\
+    lv_previous dl <> n_default net /\
+    ~ op_inert net (OCmd [lv_deescalate dl]).
+Proof. exact inert_needed_abs. Qed.
+
 Print Assumptions C04_tree_path.
 Print Assumptions C04_tree_path_unique.
 Print Assumptions C04_dfs_order_irrelevant.
@@ -118,3 +197,7 @@ Print Assumptions C04_acquire_twins.
 Print Assumptions C04_unknown_not_level.
 Print Assumptions C04_acquire_from_twins.
 Print Assumptions C04_acquire_many_twins.
+Print Assumptions C04_history.
+Print Assumptions C04_commands_at_default.
+Print Assumptions C04_configs_at_config_level.
+Print Assumptions C04_inert_needed.
